@@ -25,3 +25,28 @@ Proof. exists 78, (78 * 4096), (50 * 4096), (50 * 4096), 4096, (50 * 4096). spli
 
 Example check_truncate_ex : check_truncate 78 (78 * 4096) (50 * 4096) (50 * 4096) 4096 = (78 * 4096, false).
 Proof. vm_compute. reflexivity. Qed.
+
+(* ---------- the truncation after a rollback ---------- *)
+(* it really shrinks the file, to exactly the end of the restored state: every page below the larger of the two end
+   markers - data pages, the meta area, an overflow area behind the size limit - is still inside the file *)
+Theorem rollback_truncate_spec metaEnd dataEnd sz ps mp n :
+  0 < ps -> rollback_truncate metaEnd dataEnd sz ps mp = Some n ->
+  n < sz /\ n = Z.max metaEnd dataEnd * ps /\ (forall id, 0 <= id < Z.max metaEnd dataEnd -> (id + 1) * ps <= n).
+Proof.
+  intros Hps. unfold rollback_truncate. destruct (mp =? 0); [discriminate|].
+  destruct (Z.max metaEnd dataEnd * ps <? sz) eqn:E; [|discriminate]. intros [= <-].
+  split; [lia|]. split; [reflexivity|]. intros id Hid. nia.
+Qed.
+
+(* an unbounded file is not truncated by a rollback *)
+Theorem rollback_truncate_unbounded metaEnd dataEnd sz ps : rollback_truncate metaEnd dataEnd sz ps 0 = None.
+Proof. reflexivity. Qed.
+
+(* the variant that truncates to the data end marker (seeded change C02j) cuts off a committed overflow area:
+   64 data pages, meta end marker 67 (3 pages behind the limit in use), the file has 72 pages *)
+Theorem rollback_truncate_dataend_refuted : exists metaEnd dataEnd sz ps mp n id,
+  rollback_truncate_dataend dataEnd sz ps mp = Some n /\ dataEnd <= id < metaEnd /\ n < (id + 1) * ps.
+Proof. exists 67, 64, (72 * 1024), 1024, 64, (64 * 1024), 65. split; [vm_compute; reflexivity | lia]. Qed.
+
+Example rollback_truncate_ex : rollback_truncate 67 64 (72 * 1024) 1024 64 = Some (67 * 1024).
+Proof. vm_compute. reflexivity. Qed.
